@@ -290,6 +290,73 @@ fn concurrent(report: &mut Report, seed: u64, n: u64) -> Option<(String, String)
     if cache.stats().memory_usage != sum {
         return Some(("cache:accounting-drift".into(), format!("after the concurrent remove-then-get rounds: reported memory {} != sum of entry sizes {sum}", cache.stats().memory_usage)));
     }
+    // eviction under concurrent lookups: the two shared buckets are filled (the same crafted keys), six threads look
+    // up an ABSENT key of those buckets in a tight loop (each lookup holds the bucket's shared lock for a moment and
+    // references nothing), and evict_entries() runs with the low watermark at zero. Nothing was referenced during
+    // the call, so it has to end at (or below) the low watermark: a bucket may not be skipped because it is busy.
+    cache.clear();
+    for (i, k) in pool.iter().enumerate() {
+        cache.insert(k.clone(), Bytes::from(vec![i as u8; 600]));
+    }
+    // more entries so that walking the buckets takes a while
+    for i in 0..3000u32 {
+        cache.insert(format!("fill{n}-{i}").into_bytes(), Bytes::from(vec![1u8; 200]));
+    }
+    let absent: Vec<Vec<u8>> = {
+        let mut v = Vec::new();
+        let mut i = 0u64;
+        while v.len() < 2 && i < 4_000_000 {
+            let k = format!("absent{n}-{i}").into_bytes();
+            if buckets.contains(&(feoxdb::utils::hash::murmur3_32(&k, 0) % 16384)) {
+                v.push(k);
+            }
+            i += 1;
+        }
+        v
+    };
+    let stop = Arc::new(std::sync::atomic::AtomicBool::new(false));
+    let mut lookers = Vec::new();
+    for t in 0..6usize {
+        let (c, stop, absent) = (cache.clone(), stop.clone(), absent.clone());
+        lookers.push(std::thread::spawn(move || {
+            let mut n = 0u64;
+            while !stop.load(std::sync::atomic::Ordering::Relaxed) {
+                if let Some(k) = absent.get(t % absent.len().max(1)) {
+                    let _ = c.get(k);
+                }
+                n += 1;
+            }
+            n
+        }));
+    }
+    let mut worst = 0usize;
+    for _ in 0..6 {
+        let before = cache.stats().memory_usage;
+        cache.verif_set_watermarks(64 << 20, 0);
+        cache.evict_entries();
+        let after = cache.stats().memory_usage;
+        worst = worst.max(after);
+        report.evaluations += 1;
+        report.count("evictions_under_concurrent_lookups", 1);
+        if after > 0 {
+            stop.store(true, std::sync::atomic::Ordering::Relaxed);
+            for h in lookers {
+                let _ = h.join();
+            }
+            return Some(("cache:eviction-misses-low-watermark".into(), format!("evict_entries() under concurrent lookups of absent keys (nothing referenced) started at {before} bytes and stopped at {after} bytes, above the low watermark 0 ({} entries left)", cache.verif_entries().len())));
+        }
+        cache.verif_set_watermarks(64 << 20, 64 << 20);
+        for (i, k) in pool.iter().enumerate() {
+            cache.insert(k.clone(), Bytes::from(vec![i as u8; 600]));
+        }
+    }
+    stop.store(true, std::sync::atomic::Ordering::Relaxed);
+    let mut lookups = 0;
+    for h in lookers {
+        lookups += h.join().unwrap_or(0);
+    }
+    report.count("concurrent_absent_key_lookups", lookups);
+    let _ = worst;
     None
 }
 
